@@ -287,6 +287,20 @@ def _run_use(desc):
         pred = "budget covers all C(n,3) triples but not all triples were produced"
     elif not np.all(np.isfinite(out)):
         pred = None  # the score arithmetic is C05's subject
+    else:
+        # "the triples ... USED FOR SCORING": the returned score must be the estimator summed over exactly the triples that
+        # were produced (harness/c05.py's direct_loop, written from the formula) - a produced triple that never reaches the
+        # sum, or one that is counted twice, shows here
+        import c05
+        for p_i in range(n_plates):
+            ref = c05.direct_loop(preds[p_i].tolist(), var[p_i].tolist(), dm.tolist(), 1.0, [tuple(t) for t in triples])
+            got = float(np.asarray(out).reshape(-1)[p_i])
+            if ref is None or abs(got - ref) > 1e-8 * max(1.0, abs(ref)):
+                pred = "plate %d scores %r; the estimator over the %d produced triples gives %r: not every produced triple is used exactly once" % (
+                    p_i, got, len(triples), ref)
+                break
+        if C > 500:
+            feats.append("more-than-500-triples")
     return dict(wire=[2, n, mc, draw], impl=[call["a"], call["size"], triples], pred=pred, features=feats, cmp=cmp_result())
 
 
